@@ -454,6 +454,8 @@ pub struct SweepWorld<'a> {
     /// (message id, payload) of an approved, conforming hub message for the token service (only in worlds built for
     /// rules that can tell a legitimate delivery apart)
     pub inbound: Option<(&'static str, Vec<u8>)>,
+    /// answers every function name
+    pub anyfn: Address,
 }
 
 pub const CUSTODY: i128 = 7_000;
@@ -561,11 +563,12 @@ pub fn build_world<'a>(open_windows: u8, symbols: &[String], with_inbound: bool)
         stranger.clone(),
     ];
     let contracts = vec![w.gw.id.clone(), w.gas.id.clone(), ops_id.clone(), w.its.id.clone(), t1.clone(), t2.address.clone(), w.gas_asset.clone(), upgrader.clone(), example.clone(), gas2.clone()];
+    let anyfn = env.register(AnyFunction, ());
     let mut names: Vec<String> = symbols.to_vec();
     names.sort();
     names.dedup();
     env.set_auths(&[]);
-    SweepWorld { w, ops, ops_owner, ops_operator, upgrader, example, t1, t1_id, t2, t2_owner, minter, user_a, user_b, stranger, accounts, contracts, names, gas2, approved, canonical_id, inbound }
+    SweepWorld { w, ops, ops_owner, ops_operator, upgrader, example, t1, t1_id, t2, t2_owner, minter, user_a, user_b, stranger, accounts, contracts, names, gas2, approved, canonical_id, inbound, anyfn }
 }
 
 impl<'a> SweepWorld<'a> {
@@ -614,7 +617,7 @@ impl<'a> SweepWorld<'a> {
             } else if name.contains("owner") {
                 vec![&self.w.gw.owner, &self.w.gas.owner, &self.ops_owner, &self.w.its.owner, &self.t2_owner]
             } else if ["caller", "spender", "from", "sender", "deployer", "id"].contains(&name) {
-                vec![&self.user_a, &self.user_b, &self.example, &self.stranger]
+                vec![&self.user_a, &self.user_b, &self.example, &self.stranger, &self.ops_operator]
             } else if name.contains("token") {
                 vec![&self.w.gas_asset, &self.t1, &self.t2.address]
             } else if name == "target" || name.contains("contract") {
@@ -789,7 +792,7 @@ impl Rule {
             Rule::Announce => e.contract == "axelar-gateway" || e.contract == "example" || e.contract == "interchain-token-service",
             Rule::GasOut => e.contract == "axelar-gas-service" || e.types.iter().any(|t| t == "Token"),
             Rule::Roles => ["transfer_", "add_", "remove_", "set_", "upgrade", "migrate"].iter().any(|p| e.name.starts_with(p)) || (e.name == "execute" && e.contract == "interchain-token-service"),
-            Rule::Code => e.name.contains("upgrade") || e.name.contains("migrate"),
+            Rule::Code => e.name.contains("upgrade") || e.name.contains("migrate") || e.types.windows(3).any(|w| w == ["Address", "Symbol", "Vec<Val>"]),
             Rule::Proofless => e.contract == "axelar-gateway",
             Rule::Consume => e.name.contains("validate_message"),
             Rule::Spend => e.contract == "interchain-token" || e.types.iter().any(|t| t == "Token" || t == "i128"),
@@ -899,7 +902,24 @@ fn step(sw: &SweepWorld, ep: &Ep, seeds: &[u64], pick: u64, cx: &mut Cx, rule: R
     // together, so that the forwarded call names a real entry point of the target with well-typed arguments
     if let Some(i) = (0..ep.types.len().saturating_sub(2)).find(|i| ep.types[*i] == "Address" && ep.types[*i + 1] == "Symbol" && ep.types[*i + 2] == "Vec<Val>") {
         let s0 = seeds[i + 1];
-        if s0 % 2 == 0 {
+        let keys = scan_key_names();
+        if (s0 % 8 == 3 || (rule == Rule::Code && s0 % 2 == 1)) && !keys.is_empty() {
+            // the forwarded function is *named like a storage key* of the tree under test, and the target answers it;
+            // half of the time a key of the interfaces every contract shares; mostly by a caller entitled to forward
+            let shared: Vec<&String> = keys.iter().filter(|k| k.starts_with("Interfaces")).collect();
+            let key = if s0 / 8 % 2 == 0 && !shared.is_empty() { shared[((s0 / 16) % shared.len() as u64) as usize] } else { &keys[((s0 / 16) % keys.len() as u64) as usize] };
+            if s0 / 64 % 4 != 0 {
+                for j in 0..i {
+                    if ep.types[j] == "Address" {
+                        args.set(j as u32, sw.ops_operator.clone().into_val(&env));
+                    }
+                }
+            }
+            args.set(i as u32, sw.anyfn.clone().into_val(&env));
+            args.set(i as u32 + 1, Symbol::new(&env, key).into_val(&env));
+            args.set(i as u32 + 2, SVec::<Val>::new(&env).into_val(&env));
+            cx.label("sweep_forwarded_call_named_like_a_storage_key");
+        } else if s0 % 2 == 0 {
             let mut all = probeable_eps(&scan_cached());
             if s0 % 4 == 0 {
                 // half of the coordinated cases forward one of the gas service's payout calls
@@ -1137,6 +1157,70 @@ fn scan_cached() -> Vec<Ep> {
         let mut n = n.borrow_mut();
         if n.is_none() {
             *n = Some(scan_repo());
+        }
+        n.clone().unwrap()
+    })
+}
+
+/// A contract that answers *every* function name (with void): lets a forwarded call succeed under any name, e.g. one
+/// that equals a storage key of the forwarding contract.
+pub struct AnyFunction;
+
+impl soroban_sdk::testutils::ContractFunctionSet for AnyFunction {
+    fn call(&self, _func: &str, _env: soroban_sdk::Env, _args: &[Val]) -> Option<Val> {
+        Some(Val::VOID.into())
+    }
+}
+
+/// variant names of every `enum DataKey` (and of the shared interfaces' key enums) in the tree under test
+pub fn scan_key_names() -> Vec<String> {
+    thread_local! {
+        static NAMES: std::cell::RefCell<Option<Vec<String>>> = const { std::cell::RefCell::new(None) };
+    }
+    NAMES.with(|n| {
+        let mut n = n.borrow_mut();
+        if n.is_none() {
+            let mut files = vec![];
+            rs_files(&repo_root().join("contracts"), &mut files);
+            rs_files(&repo_root().join("packages/axelar-soroban-std/src"), &mut files);
+            let mut v: Vec<String> = vec![];
+            for f in &files {
+                if f.components().any(|x| x.as_os_str() == "tests" || x.as_os_str() == "target") {
+                    continue;
+                }
+                let Ok(src) = std::fs::read_to_string(f) else { continue };
+                let toks = tokenize(&strip_comments(&src));
+                let mut i = 0;
+                while i + 2 < toks.len() {
+                    if toks[i] == Tok::Id("enum".into()) && matches!(&toks[i + 1], Tok::Id(n) if n.ends_with("Key")) && toks[i + 2] == Tok::P('{') {
+                        let mut depth = 1;
+                        let mut j = i + 3;
+                        let mut at_start = true;
+                        while j < toks.len() && depth > 0 {
+                            match &toks[j] {
+                                Tok::P('{') | Tok::P('(') => depth += 1,
+                                Tok::P('}') | Tok::P(')') => depth -= 1,
+                                Tok::P(',') if depth == 1 => at_start = true,
+                                Tok::P('#') | Tok::P('[') | Tok::P(']') => {}
+                                Tok::Id(name) if depth == 1 && at_start => {
+                                    if name.chars().next().map(|c| c.is_uppercase()).unwrap_or(false) && name.len() <= 32 {
+                                        v.push(name.clone());
+                                    }
+                                    at_start = false;
+                                }
+                                _ => {}
+                            }
+                            j += 1;
+                        }
+                        i = j;
+                    } else {
+                        i += 1;
+                    }
+                }
+            }
+            v.sort();
+            v.dedup();
+            *n = Some(v);
         }
         n.clone().unwrap()
     })
